@@ -233,6 +233,33 @@ pub fn load_findings(property: &str) -> Vec<Finding> {
     out
 }
 
+/// Regression inputs of repaired defects: /verif/regress/*.json, each
+/// `{"properties": ["C06", ...], "fixed_by": "<commit>", "note": "...", "cases": [...]}`.
+/// Returns (file name, case value) for the files that name `property`. They are ordinary members of the verdict
+/// domain (no exclusion applies to them): a failure is a violation.
+pub fn load_regressions(property: &str) -> Vec<(String, Value)> {
+    let dir = verif_root().join("regress");
+    let mut names: Vec<PathBuf> = std::fs::read_dir(&dir).map(|d| d.filter_map(|e| e.ok().map(|e| e.path())).collect()).unwrap_or_default();
+    names.sort();
+    let mut out = Vec::new();
+    for path in names {
+        if path.extension().map_or(true, |e| e != "json") {
+            continue;
+        }
+        let Ok(text) = std::fs::read_to_string(&path) else { continue };
+        let Ok(v) = serde_json::from_str::<Value>(&text) else { continue };
+        let named = v.get("properties").and_then(|p| p.as_array()).map_or(false, |a| a.iter().any(|x| x.as_str() == Some(property)));
+        if !named {
+            continue;
+        }
+        let name = path.file_name().map(|n| n.to_string_lossy().to_string()).unwrap_or_default();
+        for c in v.get("cases").and_then(|c| c.as_array()).cloned().unwrap_or_default() {
+            out.push((name.clone(), c));
+        }
+    }
+    out
+}
+
 // ---------------------------------------------------------------------------------------------
 // violations
 
